@@ -712,6 +712,8 @@ def gen_spec(run_seed, tier='quick'):
     clients = [{'slot': None} for _ in range(nclients)]
     ops = []
     nd = ne = 0
+    evals = []
+    gevals = []
     if env_ops and rng.random() < 0.4:
         ops.append({'op': 'setenv', 'client': 0,
                     'value': '/nonexistent/pgradd-data'})
@@ -790,14 +792,30 @@ def gen_spec(run_seed, tier='quick'):
                         'plain': rng.random() < 0.15})
             ests.append(name)
         elif k == 'evaluate':
-            e = rng.choice(ests) if rng.random() < 0.5 else ests[-1]
-            ops.append({'op': 'evaluate', 'client': cid, 'est': e,
-                        'v': _variant(rng, temps)})
+            if evals and rng.random() < 0.3:
+                # the very same observation again, after whatever happened
+                # in between
+                e, v = rng.choice(evals)
+                ops.append({'op': 'evaluate', 'client': cid, 'est': e,
+                            'v': dict(v)})
+            else:
+                e = rng.choice(ests) if rng.random() < 0.5 else ests[-1]
+                v = _variant(rng, temps)
+                ops.append({'op': 'evaluate', 'client': cid, 'est': e,
+                            'v': v})
+                evals.append((e, v))
         elif k == 'group_eval':
-            v = _variant(rng, temps)
-            v.pop('S_el', None)
-            ops.append({'op': 'group_eval', 'client': cid, 'slot': sid,
-                        'gi': rng.randrange(0, 400), 'v': v})
+            if gevals and rng.random() < 0.3:
+                g_sid, gi, v = rng.choice(gevals)
+                ops.append({'op': 'group_eval', 'client': cid, 'slot': g_sid,
+                            'gi': gi, 'v': dict(v)})
+            else:
+                v = _variant(rng, temps)
+                v.pop('S_el', None)
+                gi = rng.randrange(0, 400)
+                ops.append({'op': 'group_eval', 'client': cid, 'slot': sid,
+                            'gi': gi, 'v': v})
+                gevals.append((sid, gi, v))
         elif k == 'format':
             ops.append({'op': 'format', 'client': cid, 'slot': sid,
                         'gi': rng.randrange(0, 400),
@@ -811,6 +829,16 @@ def gen_spec(run_seed, tier='quick'):
             other = rng.choice([s for s in sorted(slots) if s != sid])
             ops.append({'op': 'merge', 'client': cid, 'slot': sid,
                         'other': other, 'overwrite': rng.random() < 0.5})
+            # right after a merge: repeat earlier observations
+            for _ in range(rng.randrange(0, 3)):
+                if evals and rng.random() < 0.6:
+                    e, v = rng.choice(evals)
+                    ops.append({'op': 'evaluate', 'client': cid, 'est': e,
+                                'v': dict(v)})
+                elif gevals:
+                    g_sid, gi, v = rng.choice(gevals)
+                    ops.append({'op': 'group_eval', 'client': cid,
+                                'slot': g_sid, 'gi': gi, 'v': dict(v)})
         elif k == 'load':
             gen_load(c, cid)
     return {'property': PROP, 'run_seed': run_seed,
